@@ -61,6 +61,11 @@ func c08BuildSitescan(root string) (string, error) {
 		cmd.Dir = src
 		cmd.Env = c08GoEnv()
 		if out, err := cmd.CombinedOutput(); err != nil {
+			if _, serr := os.Stat(bin); serr == nil {
+				// fail soft: an older binary (e.g. the one corr/setup.sh built) is better than no inventory
+				fmt.Fprintf(os.Stderr, "c08scan: rebuilding tools/sitescan failed (%v), using the existing build/sitescan\n", err)
+				return bin, nil
+			}
 			return "", fmt.Errorf("building tools/sitescan: %v\n%s", err, out)
 		}
 	}
